@@ -55,6 +55,26 @@ func families() []fam {
 		}
 		return (x - 0.3) / 0.7
 	})
+	for _, kink := range []float64{0.5, 0.8, 0.9, 0.95} {
+		for _, lowv := range []float64{0.05, 0.3} {
+			kink, lowv := kink, lowv
+			// flat-ish then steep: value -lowv at 0, rises slowly to the kink, then steeply to +1 at 1 (root just after the kink)
+			add(fmt.Sprintf("flat-then-steep(kink=%g,f0=-%g)", kink, lowv), 0, 1, true, func(x float64) float64 {
+				if x <= kink {
+					return -lowv + 0.5*lowv*x/kink
+				}
+				return -0.5*lowv + (1+0.5*lowv)*(x-kink)/(1-kink)
+			})
+			// mirror image: steep then flat (root just before the kink)
+			add(fmt.Sprintf("steep-then-flat(kink=%g,f1=%g)", 1-kink, lowv), 0, 1, true, func(x float64) float64 {
+				y := 1 - x
+				if y <= kink {
+					return -(-lowv + 0.5*lowv*y/kink)
+				}
+				return -(-0.5*lowv + (1+0.5*lowv)*(y-kink)/(1-kink))
+			})
+		}
+	}
 	add("steep-ramp(k=1000)", -1, 1, true, func(x float64) float64 { return math.Tanh(1000 * (x - 0.123)) })
 	// the shape of the storage-routing residual: q*dt + k*q^m + dead - S, with a max(0,.) kink
 	add("routing-residual(m=0.8)", 0, 50, true, func(q float64) float64 { return q*86400 + 86400*math.Pow(q, 0.8) - 1e6 })
@@ -70,7 +90,7 @@ var (
 	guesses    = []float64{0, 0.25, 0.5, 1}
 	tols       = []float64{1e-3, 1e-6, 1e-9}
 	convs      = []float64{1e-8, 1e-12}
-	budgets    = []int{1, 2, 5, 20, 60}
+	budgets    = []int{1, 2, 3, 4, 5, 6, 7, 8, 10, 12, 20, 60}
 )
 
 type rootCase struct {
@@ -340,27 +360,64 @@ func runPw(t pwTable, r *vf.Rec) {
 
 // ---------------------------------------------------------------------------------------------
 
+// longTables: tables longer than the exhaustive pool allows (any length >= 2 is in the statement): uniform and
+// non-uniform knots, several y patterns, lengths around powers of two.
+func longTables() []pwTable {
+	var out []pwTable
+	for _, n := range []int{6, 7, 8, 9, 10, 12, 15, 16, 17, 31, 32, 33, 64, 100} {
+		for variant := 0; variant < 3; variant++ {
+			t := pwTable{}
+			x := -3.0
+			for i := 0; i < n; i++ {
+				switch variant {
+				case 0:
+					x += 1
+				case 1:
+					x += 0.1 + float64(i%4)*0.7
+				case 2:
+					x += math.Pow(1.3, float64(i)) * 0.01
+				}
+				t.xs = append(t.xs, x)
+				t.ys = append(t.ys, []float64{float64(i) * 0.7, float64((i*7)%5) - 1.5, 0.35}[variant])
+			}
+			out = append(out, t)
+		}
+	}
+	return out
+}
+
 type enum struct {
 	nRoot int64
 	pw    *pwIndex
+	long  []pwTable
 }
 
-func (e *enum) N() int64 { return e.nRoot + e.pw.n() }
+func (e *enum) N() int64 { return e.nRoot + e.pw.n() + int64(len(e.long)) }
 func (e *enum) Run(i int64, r *vf.Rec) {
 	if i < e.nRoot {
 		r.Count("cases/FindRoot", 1)
 		runRoot(decodeRoot(i), r)
 		return
 	}
-	r.Count("cases/Piecewise-tables", 1)
-	runPw(e.pw.table(i-e.nRoot), r)
+	if i < e.nRoot+e.pw.n() {
+		r.Count("cases/Piecewise-tables", 1)
+		runPw(e.pw.table(i-e.nRoot), r)
+		return
+	}
+	r.Count("cases/Piecewise-long-tables", 1)
+	runPw(e.long[i-e.nRoot-e.pw.n()], r)
 }
 func (e *enum) Describe(i int64) interface{} {
 	if i < e.nRoot {
 		rc := decodeRoot(i)
 		return map[string]interface{}{"function": "FindRoot", "family": rc.f.name, "interval": []float64{rc.f.min, rc.f.max}, "derivative": rc.deriv, "initial_guess_fraction": rc.guess, "tolerance": rc.tol, "convergence_limit": rc.conv, "max_iterations": rc.budget}
 	}
-	t := e.pw.table(i - e.nRoot)
+	var t pwTable
+	if i < e.nRoot+e.pw.n() {
+		t = e.pw.table(i - e.nRoot)
+	} else {
+		t = e.long[i-e.nRoot-e.pw.n()]
+	}
 	return map[string]interface{}{"function": "Piecewise", "xs": t.xs, "ys": t.ys}
 }
 func (e *enum) CrashSig(i int64, tail string) (string, string) {
@@ -370,7 +427,7 @@ func (e *enum) CrashSig(i int64, tail string) (string, string) {
 func Spec() *vf.Check {
 	return &vf.Check{
 		ID: "C18", Level: "exploration", BlockSize: 512,
-		Rule: "FindRoot: 33 functions on an interval (linear, cubic, saturating exponential, piecewise-linear with flat segments and kinks, steep ramp, routing-residual shapes, antisymmetric end values; non-monotone: three roots, damped sine) x derivative {exact,nil,zero,wrong sign} x initial guess {min,1/4,1/2,max} x tolerance {1e-3,1e-6,1e-9} x convergence limit {1e-8,1e-12} x budget {1,2,5,20,60}; every evaluation point logged. " +
+		Rule: "FindRoot: 49 functions on an interval (linear, cubic, saturating exponential, piecewise-linear with flat segments and kinks, steep ramp, routing-residual shapes, antisymmetric end values, flat-then-steep / steep-then-flat kinks with the root near an end; non-monotone: three roots, damped sine) x derivative {exact,nil,zero,wrong sign} x initial guess {min,1/4,1/2,max} x tolerance {1e-3,1e-6,1e-9} x convergence limit {1e-8,1e-12} x budget {1..8,10,12,20,60}; every evaluation point logged. " +
 			"Piecewise: every strictly increasing knot vector of length 2..4 (quick) / 2..5 (thorough) from {-2,0,0.1,0.3,0.7,1,10} x every y assignment from {-1,0,0.1,0.3,0.7,5} x queries at every knot, mid/quarter points, the floats adjacent to each knot, below, above, NaN, +-Inf x {contiguous, column view, stepped view} tables. distinct_nontrivial = cases that passed all clauses.",
 		Assumptions: []string{"'budget suffices for interval halving' is taken as: slope bound x (max-min)/2^budget < tolerance/2 and slope bound x 2 x convergenceLimit < tolerance/2 (sound for any bracketing method that includes the midpoint every iteration and may stop once the bracket is narrower than twice the convergence limit)", "lattice values only"},
 		Build: func(tier string) vf.Enumeration {
@@ -378,7 +435,7 @@ func Spec() *vf.Check {
 			if tier == "thorough" {
 				maxN = 5
 			}
-			return &enum{nRoot: vf.RadixN(rootRadices()), pw: newPwIndex(maxN)}
+			return &enum{nRoot: vf.RadixN(rootRadices()), pw: newPwIndex(maxN), long: longTables()}
 		},
 	}
 }
